@@ -48,9 +48,10 @@ class C11(Check):
         "K2": "template <-> API agreement: every builder / constructor call in the emitted text uses only keyword names that the real "
               "signature in model.py / types.py has, and the emitted header imports every constructor the templates use",
         "K3": "an untranslatable function makes generation raise",
+        "K7": "(shared with C06) semantics of the function translator the emitted functions are printed from: S2-S7, S9-S13 of C06",
         "K4": "all four component kinds (variables, parameters, derived quantities, reactions) are translated and emitted, unfiltered",
     }
-    floors = {"K1": 7, "K2": 6, "K3": 1, "K4": 8, "K5": 2, "K6": 4}
+    floors = {"K1": 7, "K2": 6, "K3": 1, "K4": 8, "K5": 2, "K6": 4, "K7": 10}
     decided = [
         "two different functions can never be emitted under one name; a component always refers to its own definition",
         "the generated source calls the builder API with keywords that exist; its header imports what it uses",
@@ -62,6 +63,7 @@ class C11(Check):
     def run(self) -> None:
         mod = self.prog.module(MOD)
         gen = mod.func(GEN)
+        self.borrow("C06", ("S2", "S3", "S4", "S5", "S6", "S7", "S9", "S10", "S11", "S12", "S13"), "K7")
         # ---- K1: stores into the definition table
         table = "functions"
         # the table is created in the generator and handed down: per function, the local name(s) that denote it (fixpoint over call sites)
